@@ -579,6 +579,51 @@ class Inliner:
                 isinstance(st.body[0], ast.Expr) and isinstance(st.body[0].value, ast.Yield) and \
                 isinstance(st.body[0].value.value, ast.Name) and st.body[0].value.value.id == st.target.id and is_gen_call(st.iter):
             inner = st.iter
+        # for v in _g(...): BODY   -- BODY runs at every yield of the helper, in the helper's control flow
+        if inner is None and isinstance(st, ast.For) and not st.orelse and isinstance(st.target, ast.Name) and is_gen_call(st.iter):
+            g, _recv = self.resolve_gen(st.iter, cls)
+            has_break = has_continue = False
+            stack = list(st.body)
+            while stack:
+                x = stack.pop()
+                if isinstance(x, ast.Break):
+                    has_break = True
+                elif isinstance(x, ast.Continue):
+                    has_continue = True
+                if isinstance(x, (ast.For, ast.While, ast.FunctionDef, ast.AsyncFunctionDef, ast.Lambda, ast.ClassDef)):
+                    continue
+                stack.extend(ast.iter_child_nodes(x))
+            # `continue` = resume the helper after its yield: the same thing only when every yield ends a loop body of the helper
+            yields_end_loops = True
+            any_from = False
+            for lp in ast.walk(g):
+                if isinstance(lp, ast.Expr) and isinstance(lp.value, ast.YieldFrom):
+                    any_from = True
+            def tails(body, in_loop):
+                ok = True
+                for i, s_ in enumerate(body):
+                    last = i == len(body) - 1
+                    if isinstance(s_, ast.Expr) and isinstance(s_.value, ast.Yield):
+                        if not (in_loop and last):
+                            ok = False
+                    elif isinstance(s_, (ast.For, ast.While)):
+                        ok = ok and tails(s_.body, True) and not any(isinstance(y, ast.Yield) for z in s_.orelse for y in ast.walk(z))
+                    elif isinstance(s_, ast.If):
+                        ok = ok and tails(s_.body, in_loop and last) and tails(s_.orelse, in_loop and last)
+                    elif any(isinstance(y, ast.Yield) for y in ast.walk(s_)):
+                        ok = False
+                return ok
+            if has_continue:
+                yields_end_loops = tails([x for x in g.body], False)
+            tname = st.target.id
+            n_yield = sum(1 for y in ast.walk(g) if isinstance(y, ast.Yield))
+            if not has_break and not any_from and (not has_continue or yields_end_loops) and n_yield == 1:
+                def one(v):
+                    return [ast.Assign(targets=[ast.Name(id=tname, ctx=ast.Store())], value=v)] + copy.deepcopy(st.body)
+
+                def many(v):
+                    return []
+                return self.expand(st.iter, None, cls, gen=(one, many))
         if inner is not None:
             def one(v):
                 return [ast.Expr(value=ast.Yield(value=v))]
